@@ -284,7 +284,7 @@ theorem numOK_fixed_big (neg : Bool) (ds : List Nat) (pt : Int) (hne : ds ≠ []
       digitChars (ds ++ List.replicate (pt - (ds.length : Int)).toNat 0) ++ 46 :: digitChars [0] := by
     have h1 : ¬ pt ≤ 0 := by omega
     have h2 : ¬ pt < (ds.length : Int) := by omega
-    simp [reprFixedForm, h1, h2, digitChars_append, digitChars_replicate, digitChars]
+    simp [reprFixedForm, h1, h2, digitChars]
   have hid : ∀ x ∈ ds ++ List.replicate (pt - (ds.length : Int)).toNat 0, x < 10 :=
     mem_append_lt10 hd (replicate_lt10 _)
   have hine : ds ++ List.replicate (pt - (ds.length : Int)).toNat 0 ≠ [] := by simp [hne]
@@ -364,14 +364,14 @@ theorem numOK_reprDouble (d : Dec) (h : wfDec d = true) : NumOK (reprDouble d) (
     have e : reprDouble ⟨neg, ds, pt⟩ ++ rest = (if neg then [45] else []) ++ reprBody ⟨neg, ds, pt⟩ ++ rest := by
       simp [reprDouble]
     rw [e]
-    unfold reprBody
-    simp only
-    split
-    · rename_i hform
+    by_cases hform : pt ≤ -4 ∨ pt > 16
+    · have hb : reprBody ⟨neg, ds, pt⟩ = reprExpForm ds pt := by simp [reprBody, hform]
+      rw [hb]
       rcases hz' with ⟨_, h2⟩ | ⟨h1, h2⟩
       · omega
       · exact numOK_exp neg ds pt hne hd h1 h2 rest hr
-    · rename_i hform
+    · have hb : reprBody ⟨neg, ds, pt⟩ = reprFixedForm ds pt := by simp [reprBody, hform]
+      rw [hb]
       by_cases hk : (ds.length : Int) ≤ pt
       · exact numOK_fixed_big neg ds pt hne hd hz' hk rest hr
       · have hlen : 0 < ds.length := List.length_pos_iff.mpr hne
